@@ -20,12 +20,12 @@ PROPS = {
     "C06": ("entropy", "exploration", {"quick": (3000, 75, 60), "thorough": (60000, 1200, 90)}),
     "C08": ("credstore", "exploration", {"quick": (8000, 75, 60), "thorough": (40000, 1800, 180)}),
     "C09": ("derive", "exploration", {"quick": (3000, 75, 60), "thorough": (80000, 1500, 90)}),
-    "C10": ("credstore", "fault_enumeration", {"quick": (900, 75, 90), "thorough": (25000, 1800, 180)}),
+    "C10": ("credstore", "fault_enumeration", {"quick": (2500, 75, 90), "thorough": (60000, 1800, 180)}),
     "C13": ("totp", "exploration", {"quick": (6000, 60, 60), "thorough": (200000, 1200, 90)}),
     "C14": ("totp", "exploration", {"quick": (6000, 60, 60), "thorough": (250000, 1500, 90)}),
     "C15": ("totp", "exploration", {"quick": (6000, 60, 60), "thorough": (200000, 1200, 90)}),
     "C16": ("htfile", "exploration", {"quick": (40000, 75, 60), "thorough": (800000, 1500, 90)}),
-    "C18": ("credstore", "exploration", {"quick": (4000, 60, 60), "thorough": (120000, 1200, 90)}),
+    "C18": ("credstore", "exploration", {"quick": (12000, 60, 60), "thorough": (400000, 1200, 90)}),
     "C19": ("lazyinit", "exploration", {"quick": (5000, 80, 60), "thorough": (150000, 1800, 120)}),
 }
 
